@@ -44,7 +44,15 @@ void CanFdErrorFrame64::write(AbstractFile & os) {
     /* pre processing */
     validDataBytes = static_cast<uint8_t>(data.size());
 
-    /* decide once, with the objectSize that also sizes the header: it is recomputed by ObjectHeader::write */
+    /*
+     * hasExtData() depends on objectSize, which is recomputed by ObjectHeader::write. Prime it with the
+     * size the object has with extended frame data, so that the decision made here, while sizing the
+     * header and by a reader of the result is the same; decide once.
+     */
+    if (extDataOffset != 0) {
+        objectSize = 0; // calculateObjectSize() without extended frame data
+        objectSize = calculateObjectSize() + CanFdExtFrameData::calculateObjectSize();
+    }
     const bool extData = hasExtData();
 
     ObjectHeader::write(os);
